@@ -9,7 +9,7 @@ region narrow: (construct, gap kind per slot).
 
 from __future__ import annotations
 
-GAP_KINDS = ["sp", "nl", "blank", "eolc", "eolc_blank", "ownc", "sp2", "ownc_blank", "blank_ownc"]
+GAP_KINDS = ["sp", "nl", "blank", "eolc", "eolc_blank", "ownc", "sp2", "ownc_blank", "blank_ownc", "ownblock", "ownblock_ml", "ownblock_ml2"]
 
 
 class Zoo:
@@ -66,7 +66,9 @@ class Zoo:
         if self.one_line:
             self.slots.append("sp")
             return " "
-        kind = self.rng.choices(kinds, weights=weights or [6, 3, 1, 1, 1, 1, 0.5, 0.7, 0.7])[0]
+        w = list(weights or [6, 3, 1, 1, 1, 1, 0.5, 0.7, 0.7])
+        w += [0.0] * (len(kinds) - len(w)) if weights else [0.4, 0.4, 0.3]
+        kind = self.rng.choices(kinds, weights=w)[0]
         self.slots.append(kind)
         self.k += 1
         c = "# c%d" % self.k
@@ -80,6 +82,11 @@ class Zoo:
             "ownc": "\n" + ind + c + "\n" + ind,
             "ownc_blank": "\n" + ind + c + "\n\n" + ind,
             "blank_ownc": "\n\n" + ind + c + "\n" + ind,
+            # block comments alone on their lines: one line; several lines with the text on the opener's and the
+            # closer's line (continuation at an odd column); several lines with opener and closer on lines of their own
+            "ownblock": "\n" + ind + "/* b%d */" % self.k + "\n" + ind,
+            "ownblock_ml": "\n" + ind + " /* b%d\n" % self.k + ind + "      more\n" + ind + "   end */\n" + ind,
+            "ownblock_ml2": "\n" + ind + "/*\n" + ind + "  b%d\n" % self.k + ind + "*/\n" + ind,
         }[kind]
 
     def construct(self, kind: str, ind: str) -> str:
@@ -240,7 +247,12 @@ class Zoo:
         elif place == "binding":
             val = self.construct(kind, "    ")
             sep = self.gap("    ", weights=[8, 2, 0, 0, 0, 0, 0.3, 0, 0])
-            text = "{\n  pre = 1;\n  k =" + sep + val + ";\n  post = 2;\n}\n"
+            # (one binding in five carries an end-of-line comment of its own behind the semicolon, or the semicolon
+            # stands on the next line)
+            r = rng.random()
+            tail = ";" if r < 0.8 else (rng.choice(["; # t", "\n  ; # t", " # s\n  ; # t", "\n  ;"]))
+            self.extra["binding_tail"] = tail.replace("\n", "|")
+            text = "{\n  pre = 1;\n  k =" + sep + val + tail + "\n  post = 2;\n}\n"
         elif place == "let_binding":
             val = self.construct(kind, "    ")
             text = "let\n  k = " + val + ";\nin\n{\n  x = k;\n}\n"
